@@ -502,6 +502,9 @@ func (fc *fnCtx) mexpr(ex ast.Expr) (string, bool, error) {
 	if s, handled, err := fc.k11bMexpr(ex); handled { // wp k11b (ext_k11b.go)
 		return s, true, err
 	}
+	if s, handled, err := fc.k11b2Mexpr(ex); handled { // wp k11b2 (ext_k11b2.go)
+		return s, true, err
+	}
 	switch x := ex.(type) {
 	case *ast.SelectorExpr:
 		if key, lt, ok := fc.fieldKey(x); ok {
@@ -1245,6 +1248,13 @@ func (fc *fnCtx) mblock(stmts []ast.Stmt, lvl int) (string, error) {
 				continue
 			}
 			if vals, handled, err := fc.k01decReturn(x, ri, r); handled { // wp k01dec: object-typed results
+				if err != nil {
+					return "", err
+				}
+				rs = append(rs, vals...)
+				continue
+			}
+			if vals, handled, err := fc.k11b2Return(ri, r); handled { // wp k11b2: nil of a [][]byte result
 				if err != nil {
 					return "", err
 				}
@@ -3040,6 +3050,7 @@ func genFuncM(p *packages.Package, e entry) (string, error) {
 	fc := newMCtx(p, e.module, e.lean)
 	curFC = fc
 	defer func() { curFC = nil }()
+	fc.k11b2View(fd) // wp k11b2 (ext_k11b2.go): the Data Matrix mode loop as a view (BitSource parameter, the three result values)
 	var fields []*ast.Field
 	if fd.Recv != nil {
 		fields = append(fields, fd.Recv.List...)
